@@ -174,8 +174,8 @@ _addr2line.restype = ctypes.c_int
 def addr2line(code, offset):
     """Line CPython assigns to the code unit at byte offset (None = no line)."""
     r = _addr2line(code, offset)
-    if r < 0:
-        return None
+    if r < 0 and IS310:
+        return None       # 3.10: -1 means "no line"; before 3.10 the lnotab cannot express that
     return r
 
 
